@@ -32,17 +32,23 @@ func c15Spec(name string) map[string]interface{} {
 	}
 	switch name {
 	case "X":
-		return map[string]interface{}{"name": "X", "nodes": map[string]interface{}{
+		// a failing action is handled by the node's own branches (actionErrorBranches): part of the specification
+		// source, and so of what a store has to hold
+		bump := act(`if (_.bindings["?n"] === "boom") { throw "boom"; } var c = (_.bindings.count || 0) + 1; _.out({x: c, from: _.props.mid}); return {count: c, "?one": 1};`, "start")
+		bump["branching"] = map[string]interface{}{"branches": []interface{}{
+			map[string]interface{}{"pattern": map[string]interface{}{"actionError": "?e"}, "target": "hit"}, map[string]interface{}{"target": "start"}}}
+		return map[string]interface{}{"name": "X", "actionErrorBranches": true, "nodes": map[string]interface{}{
 			// "?one" is a number the matcher meets again as a bound variable (in memory it is what the script
 			// produced, after a restart what the host's loader made of it)
 			"start": msgNode(br(map[string]interface{}{"inc": "?n"}, "bump"), br(map[string]interface{}{"is": "?one"}, "hit")),
-			"bump":  act(`var c = (_.bindings.count || 0) + 1; _.out({x: c, from: _.props.mid}); return {count: c, "?one": 1};`, "start"),
+			"bump":  bump,
 			"hit":   act(`_.out({hit: _.bindings.count, from: _.props.mid}); return _.bindings;`, "start"),
 		}}
 	case "Y":
-		return map[string]interface{}{"name": "Y", "nodes": map[string]interface{}{
+		// a failing action sends the machine to a node of the author's choice (actionErrorNode)
+		return map[string]interface{}{"name": "Y", "actionErrorNode": "on", "nodes": map[string]interface{}{
 			"start": msgNode(br(map[string]interface{}{"inc": "?n"}, "toOn")),
-			"toOn":  act(`_.out({y: "on", from: _.props.mid}); return {count: _.bindings.count || 0};`, "on"),
+			"toOn":  act(`if (_.bindings["?n"] === "boom") { throw "boom"; } _.out({y: "on", from: _.props.mid}); return {count: _.bindings.count || 0};`, "on"),
 			"on":    msgNode(br(map[string]interface{}{"inc": "?n"}, "toOff")),
 			"toOff": act(`_.out({y: "off", from: _.props.mid}); return {count: _.bindings.count || 0};`, "start"),
 		}}
@@ -82,6 +88,8 @@ var c15Ops = []c15Op{
 	{"delete-m1", func() interface{} { return map[string]interface{}{"to": "captain", "delete": []interface{}{"m1"}} }},
 	{"inc-all", func() interface{} { return map[string]interface{}{"inc": 1.0} }},
 	{"inc-m1", func() interface{} { return map[string]interface{}{"to": "m1", "inc": 1.0} }},
+	// a message that makes the actions of X and Y fail: what happens then is decided by the specifications' error settings
+	{"boom-all", func() interface{} { return map[string]interface{}{"inc": "boom"} }},
 	{"create-boss", upd("boss", "Z", nil)},
 	{"boss-recreate-m1", func() interface{} { return map[string]interface{}{"to": "boss", "boss": "recreate"} }},
 	{"bad-op", func() interface{} {
@@ -479,7 +487,7 @@ func stateKeyFull(c *Crew, s shadow) string {
 	return liveKey(c) + "#" + shadowKey(s) + "#" + cap + "#" + strings.Join(prev, ",")
 }
 
-var c15Conts = [][]string{{"inc-all"}, {"inc-m1"}, {"create-m2-Y"}, {"delete-m1"}, {"delete-m2"}, {"boss-delete-m2"}, {"boss-recreate-m1"}, {"spec-m1-Y"}, {"bs-only-m1"}, {"is-1"}, {"inc-all", "is-1"}, {"state-m1-and-bad-m3"}, {"inc-m1-and-op-on-m1-and-bad-m3"},
+var c15Conts = [][]string{{"inc-all"}, {"boom-all"}, {"boom-all", "inc-all"}, {"inc-m1"}, {"create-m2-Y"}, {"delete-m1"}, {"delete-m2"}, {"boss-delete-m2"}, {"boss-recreate-m1"}, {"spec-m1-Y"}, {"bs-only-m1"}, {"is-1"}, {"inc-all", "is-1"}, {"state-m1-and-bad-m3"}, {"inc-m1-and-op-on-m1-and-bad-m3"},
 	{"inc-all", "inc-all"}, {"create-m1-X", "inc-m1"}, {"state-m1", "inc-m1"}, {"delete-m1", "create-m1-X"}, {"delete-m1", "inc-all"}, {"create-m1-X-with-state", "inc-all"}}
 
 // c15Check evaluates invariant and differential for one history; returns violations.
@@ -575,7 +583,7 @@ func C15(c *vh.Ctx) {
 		depth = c15DepthOverride
 	}
 	c.Bound("history_max", depth)
-	c.Rule(fmt.Sprintf("breadth-first search over histories of crew operations on a real sio.Crew (fresh crew + replay per successor; states deduplicated by live machines, captain state, shadow store and change cache): alphabet of %d operations (create m1/m2/boss with specs X/Y/Z, replace m1's state, replace m1's spec, delete m1, messages to all / to m1, a machine that deletes and re-creates m1 within one ProcessMsg, deletion of m2 by the host and by a machine, a captain operation that fails, captain messages with two updates of which the later one fails (also addressed to the machine the first one updates), and *restart*: the crew is replaced by one rebuilt from the shadow store, so every message boundary is a crash-and-restart point and the search goes on from the restarted crew), depth up to the bound. Invariant in every state: a store that folded every Result.Changed (as sio.Stdio does) equals the live crew (node, bindings, spec; deleted machines absent; a stored machine without state is start/{}). The same histories are also replayed with the repository's own consumer as the host - sio.Stdio folding Result.Changed into its state map and writing the state file after every message, restart = siostd's boot path reading that file back - and after every message the file must describe the live crew. Differential in every state: a crew rebuilt from that store through SetMachine (the siostd boot path) and the original give equal emissions, equal next states and equal stores (each crew's reported changes folded into its own copy of the store, which must also equal that crew) on %d continuations of length <= 2.", len(c15Ops), len(c15Conts)))
+	c.Rule(fmt.Sprintf("breadth-first search over histories of crew operations on a real sio.Crew (fresh crew + replay per successor; states deduplicated by live machines, captain state, shadow store and change cache): alphabet of %d operations (create m1/m2/boss with specs X/Y/Z, replace m1's state, replace m1's spec, delete m1, messages to all / to m1, a message that makes the actions of X and Y fail (X handles it with actionErrorBranches, Y with an actionErrorNode: the error settings are part of the specification source), a machine that deletes and re-creates m1 within one ProcessMsg, deletion of m2 by the host and by a machine, a captain operation that fails, captain messages with two updates of which the later one fails (also addressed to the machine the first one updates), and *restart*: the crew is replaced by one rebuilt from the shadow store, so every message boundary is a crash-and-restart point and the search goes on from the restarted crew), depth up to the bound. Invariant in every state: a store that folded every Result.Changed (as sio.Stdio does) equals the live crew (node, bindings, spec; deleted machines absent; a stored machine without state is start/{}). The same histories are also replayed with the repository's own consumer as the host - sio.Stdio folding Result.Changed into its state map and writing the state file after every message, restart = siostd's boot path reading that file back - and after every message the file must describe the live crew. Differential in every state: a crew rebuilt from that store through SetMachine (the siostd boot path) and the original give equal emissions, equal next states and equal stores (each crew's reported changes folded into its own copy of the store, which must also equal that crew) on %d continuations of length <= 2.", len(c15Ops), len(c15Conts)))
 	seen := map[string]bool{}
 	reported := map[string]bool{}
 	frontier := [][]string{{}}
